@@ -44,25 +44,22 @@ Record xpe := mkXpe { x_pos : option nat; x_msg : str; x_unsupported : bool }.
 Inductive xclass := CIndexError | CKeyError | CAssertionError | CValueError | CNotImplementedError.
 
 Inductive site :=
-| S_group_pop                 (* group_enclosed_expressions: openers.pop() on an empty list *)
+| S_group_pop                 (* group_enclosed_expressions: openers.pop() (guarded by `if not openers: raise`) *)
 | S_group_complement          (* COMPLEMENTING_TOKEN_TYPES[start_token.type] *)
 | S_path_first                (* parse_location_path: tokens[0] after expand_axes *)
 | S_path_not_implemented      (* parse_location_path: raise NotImplementedError *)
-| S_step_all_tokens_last      (* parse_location_step: all_tokens[-1] of an empty step *)
+| S_step_all_tokens_last      (* parse_location_step: all_tokens[-1] (guarded by `if not all_tokens: raise`) *)
 | S_step_last_not_token       (* assert isinstance(last_token, Token) *)
-| S_step_pi_name              (* assert tokens[0].string == "processing-instruction" *)
 | S_step_pi_arg_index         (* tokens[2][0] *)
 | S_step_pi_arg_not_token     (* assert isinstance(target_name, Token) *)
-| S_step_node_type            (* NODE_TYPE_TEST_MAPPING[tokens[0].string] *)
+| S_step_node_type            (* NODE_TYPE_TEST_MAPPING[tokens[0].string] (guarded by `not in`) *)
 | S_step_test_index           (* tokens[0] in the final else of the node test *)
 | S_step_test_not_token       (* assert isinstance(tokens[0], Token) there *)
 | S_step_operators_lookup     (* OPERATORS["="] *)
 | S_step_pred_last_index      (* tokens[-1] in the predicate loop (tokens is non-empty there) *)
 | S_step_pred_last_not_token  (* assert isinstance(tokens[-1], Token) *)
-| S_expr_int                  (* int(tokens[0].string): longer than sys.get_int_max_str_digits() *)
-| S_expr_operand              (* assert 0 < i < len(tokens) - 1 *)
 | S_expr_operators_lookup     (* OPERATORS[token.string] *)
-| S_expr_empty                (* tokens[0] of an empty token list *)
+| S_expr_empty                (* the final tokens[0] (guarded by `if not tokens: raise` at the top) *)
 | S_expr_first_not_token      (* assert isinstance(tokens[0], Token) at the end *)
 | S_guarded_index             (* tokens[k] right after a pattern match of length > k *)
 | S_guarded_assert.           (* assert isinstance(tokens[k], Token / Sequence) right after a pattern match *)
@@ -72,19 +69,18 @@ Definition site_class (s : site) : xclass :=
   | S_group_pop | S_path_first | S_step_all_tokens_last | S_step_pi_arg_index | S_step_test_index
   | S_step_pred_last_index | S_expr_empty | S_guarded_index => CIndexError
   | S_group_complement | S_step_node_type | S_step_operators_lookup | S_expr_operators_lookup => CKeyError
-  | S_step_last_not_token | S_step_pi_name | S_step_pi_arg_not_token | S_step_test_not_token
-  | S_step_pred_last_not_token | S_expr_operand | S_expr_first_not_token | S_guarded_assert => CAssertionError
-  | S_expr_int => CValueError
+  | S_step_last_not_token | S_step_pi_arg_not_token | S_step_test_not_token
+  | S_step_pred_last_not_token | S_expr_first_not_token | S_guarded_assert => CAssertionError
   | S_path_not_implemented => CNotImplementedError
   end.
 
 Definition site_id (s : site) : N :=
   match s with
   | S_group_pop => 0 | S_group_complement => 1 | S_path_first => 2 | S_path_not_implemented => 3
-  | S_step_all_tokens_last => 4 | S_step_last_not_token => 5 | S_step_pi_name => 6 | S_step_pi_arg_index => 7
+  | S_step_all_tokens_last => 4 | S_step_last_not_token => 5 | S_step_pi_arg_index => 7
   | S_step_pi_arg_not_token => 8 | S_step_node_type => 9 | S_step_test_index => 10 | S_step_test_not_token => 11
   | S_step_operators_lookup => 12 | S_step_pred_last_index => 13 | S_step_pred_last_not_token => 14
-  | S_expr_int => 15 | S_expr_operand => 16 | S_expr_operators_lookup => 17 | S_expr_empty => 18
+  | S_expr_operators_lookup => 17 | S_expr_empty => 18
   | S_expr_first_not_token => 19 | S_guarded_index => 20 | S_guarded_assert => 21
   end%N.
 
